@@ -7,6 +7,7 @@ import (
 	"io"
 	gofs "io/fs"
 	"os"
+	"path"
 	"path/filepath"
 	"sort"
 	"strings"
@@ -29,11 +30,11 @@ type c11Level struct {
 }
 
 type c11Case struct {
-	Tree     *h.Tree    `json:"tree"`
-	Levels   []c11Level `json:"levels"` // innermost first
+	Tree   *h.Tree    `json:"tree"`
+	Levels []c11Level `json:"levels"` // innermost first
 	// EmptyLists: lists without entries are handed over as empty non-nil slices
 	EmptyLists bool `json:"emptylists,omitempty"`
-	Capacity int        `json:"capacity"`
+	Capacity   int  `json:"capacity"`
 	// Wrap: the stack handed to Send is wrapped in a pass-through FS of a type the
 	// library does not know (callers compose and wrap views freely)
 	Wrap bool `json:"wrap,omitempty"`
@@ -49,7 +50,7 @@ func (p passFS) Open(name string) (io.ReadCloser, error) { return p.inner.Open(n
 
 var c11TreeCfg = h.TreeCfg{
 	MaxEntries: 14, MaxDepth: 3,
-	Names:     []string{"a", "b", "c", "ab", "a-b", "a.b", "sub", "sub-x", "sub.txt", "d", "x", "k"},
+	Names:     []string{"a", "b", "c", "ab", "a-b", "a.b", "sub", "sub-x", "sub.txt", "d", "x", "k", "a..b", "v1..2"},
 	Kinds:     []h.Kind{h.KFile, h.KFile, h.KFile, h.KFile, h.KSymlink, h.KFifo, h.KFifo},
 	Hardlinks: true, SpecialLinks: true, BigFiles: false, Xattrs: true, XattrNS: []string{"user.", "trusted."},
 	SymTargets: []string{"a", "b", "../a", "/a", "sub", "../sub/a", "dangling", "/b/c", "."},
@@ -290,6 +291,24 @@ func c11Check(env *h.Env, c *c11Case) error {
 					return env.Known("patternmatcher-parent-results-divergence", "walk hides %q but Open through the same view succeeds; the dependency's two evaluators disagree on this path", n.Path)
 				}
 				return fmt.Errorf("the filtered walk does not report %q but Open through the same view succeeds (levels %+v)", n.Path, c.Levels)
+			}
+			// ... under any other spelling of the same path either
+			if !diverges(n.Path) {
+				spell := []string{"./" + n.Path, "/" + n.Path, "zz/../" + n.Path, path.Dir(n.Path) + "/./" + path.Base(n.Path), n.Path + "/."}
+				for _, m := range c.Tree.Nodes {
+					if m.Kind == h.KDir {
+						spell = append(spell, m.Path+"/"+strings.Repeat("../", strings.Count(m.Path, "/")+1)+n.Path)
+						break
+					}
+				}
+				for _, sp := range spell {
+					if rc, err := view.Open(sp); err == nil {
+						dt, _ := io.ReadAll(rc)
+						rc.Close()
+						env.Class("hidden-path-other-spelling")
+						return fmt.Errorf("the filtered walk does not report %q, Open(%q) refuses it, but Open(%q) - the same path spelled differently - succeeds and yields %d bytes (levels %+v)", n.Path, n.Path, sp, len(dt), c.Levels)
+					}
+				}
 			}
 		}
 	}
